@@ -72,9 +72,9 @@ static void script_task(void *arg)
 	uint8_t buf[2048], out[2304], key[32], iv[16];
 	w->digest = 0x7a5c;
 	for (int i = 0; i < w->nops; i++) {
-		int op = (int)rng_below(&r, 25);
+		int op = (int)rng_below(&r, 26);
 		if (g_tp->afail_at >= 0 && rng_chance(&r, 1, 2)) op = 12;      /* the operation that allocates */
-		if (g_tp->op > 0 && rng_chance(&r, 3, 4)) op = (int)(g_tp->op - 1) % 25;   /* storm: every script task mostly runs the same kind of operation */
+		if (g_tp->op > 0 && rng_chance(&r, 3, 4)) op = (int)(g_tp->op - 1) % 26;   /* storm: every script task mostly runs the same kind of operation */
 		size_t n = 8 + rng_below(&r, 1493);      /* at least 8: several operations split the input in halves or thirds, and a zero-length update is an error */
 		rng_bytes(&r, buf, n); rng_bytes(&r, key, 32); rng_bytes(&r, iv, 16);
 		DI(w, op);
@@ -230,6 +230,15 @@ static void script_task(void *arg)
 			FILE *mf = open_memstream(&txt, &tl);
 			if (mf) { DI(w, tls_record_print(mf, rec, k, 0, 0)); fclose(mf); D(w, txt, tl); free(txt); }
 			break; }
+		case 25: { /* a context of this task's own, configured through the public setters (each task its own verify depth) */
+			const CredSet *cr = creds_get(2, 0); TLS_CTX cx;
+			int server = (int)rng_below(&r, 2);
+			DI1(w, tls_ctx_init(&cx, TLS_protocol_tls12, server ? TLS_server_mode : TLS_client_mode));
+			DI(w, ctx_setup_from_files(&cx, &r, server ? cr->srv_chain : cr->cli_chain, server ? cr->srv_chain_len : cr->cli_chain_len,
+				server ? &cr->srv_sign.key : &cr->cli_sign.key, NULL, cr->trust, cr->trust_len, w->id % 5));
+			DI(w, cx.verify_depth); DI(w, (int64_t)cx.certslen); DI(w, (int64_t)cx.cacertslen);
+			tls_ctx_cleanup(&cx);
+			break; }
 		default: { /* ECDH between two fresh keys: both sides must agree */
 			SM2_KEY a, b; SM2_Z256_POINT s1, s2; uint8_t x1[64], x2[64];
 			DI1(w, sm2_key_generate(&a)); DI1(w, sm2_key_generate(&b));
@@ -283,7 +292,7 @@ static void threads_gen(Plan *p, uint64_t base_seed, uint64_t variant, int tier)
 	p->eagain = rng_chance(&g, 1, 3);
 	/* a third of the plans are storms of one operation kind: two tasks are then inside the same library function
 	 * far more often than in a mixed workload, which is what function-local shared state needs to show */
-	p->op = rng_chance(&g, 1, 3) ? 1 + rng_below(&g, 25) : 0;
+	p->op = rng_chance(&g, 1, 3) ? 1 + rng_below(&g, 26) : 0;
 	if (p->victim > 0 && rng_chance(&g, 1, 4)) p->cred_mode |= 64;
 	if (rng_chance(&g, 1, 4)) { p->afail_node = -2; p->afail_at = rng_below(&g, 3); p->afail_rest = rng_chance(&g, 2, 3); }
 	else if (rng_chance(&g, 1, 4)) {
